@@ -333,7 +333,8 @@ func c20(c *Ctx) {
 
 	// ---- R20.L ----------------------------------------------------------------------------------
 	if hf := c.P.Func(load.DeepPkg, "", "resolveHttpLink"); hf != nil {
-		var dom, inv string
+		var dom, inv, domArgDesc string
+		var domArg, invArg bool
 		var emptyGuards int
 		for _, f := range an.WithAnon(hf) {
 			for _, b := range f.Blocks {
@@ -343,8 +344,15 @@ func c20(c *Ctx) {
 							switch an.FieldName(fa.X.Type(), fa.Field) {
 							case "deeplinks.ResolveParameters.Domain":
 								dom = tr.OriginString(st.Val)
+								// what is lower-cased is the path variable itself: the map lookup, not a trimmed,
+								// unescaped or otherwise rewritten form of it
+								if call, ok := st.Val.(*ssa.Call); ok && an.CalleeName(call.Common()) == "strings.ToLower" && len(call.Call.Args) == 1 {
+									domArg = pathVariable(call.Call.Args[0], f)
+									domArgDesc = tr.OriginString(call.Call.Args[0])
+								}
 							case "deeplinks.JoinParameters.Invite":
 								inv = tr.OriginString(st.Val)
+								invArg = pathVariable(st.Val, f)
 							}
 						}
 					}
@@ -363,7 +371,8 @@ func c20(c *Ctx) {
 				"the path matched against the templates is "+simplifyOrigin(o)+" (must be u.Path itself: the invite token is case-sensitive and /JoinChat/x is not an invite)")
 		}
 		r.Check(strings.HasPrefix(dom, "call:strings.ToLower"), "R20.L", "domain:lower-cased", c.pos(hf.Pos()), "Domain ← "+dom)
-		r.Check(inv != "" && !strings.Contains(inv, "ToLower") && !strings.Contains(inv, "ToUpper"), "R20.L", "invite:verbatim", c.pos(hf.Pos()), "Invite ← "+inv)
+		r.Check(domArg, "R20.L", "domain:the-path-variable-itself", c.pos(hf.Pos()), "what is lower-cased into Domain is "+domArgDesc+" (must be the lookup of the template variable in the map matchPath returned, with nothing trimmed or rewritten: t.me/@name is not the user `name`)")
+		r.Check(invArg && inv != "" && !strings.Contains(inv, "ToLower") && !strings.Contains(inv, "ToUpper"), "R20.L", "invite:verbatim", c.pos(hf.Pos()), "Invite ← "+inv)
 		r.Check(emptyGuards >= 2, "R20.L", "empty-variable-is-error", c.pos(hf.Pos()), sprintf("%d tests of a path variable against the empty string", emptyGuards))
 	}
 }
@@ -380,4 +389,17 @@ func isSlashConst(v ssa.Value) bool {
 		return i == '/'
 	}
 	return false
+}
+
+// pathVariable: v is a lookup in the first parameter of the converter closure f (a map[string]string), or the
+// value half of the comma-ok form of one.
+func pathVariable(v ssa.Value, f *ssa.Function) bool {
+	if ex, ok := v.(*ssa.Extract); ok && ex.Index == 0 {
+		v = ex.Tuple
+	}
+	lk, ok := v.(*ssa.Lookup)
+	if !ok || len(f.Params) == 0 {
+		return false
+	}
+	return lk.X == ssa.Value(f.Params[0])
 }
